@@ -96,7 +96,7 @@ pub fn build(id: &str, tier: Tier) -> Option<Check> {
         "C01" => Check {
             id: "C01",
             jobs: vec![
-                bfs(ulc("c01-lifecycle", |h| { h.arm.c01 = true; h.with_bond = !q; h.with_convert = !q; h.with_slash_bonded = true; h.budget = tier.pick(1, 2); h.slash_vals = vec!["val1", "val2"]; h.seeds = vec!["funded", "slashed", "inflight", "two_inflight"]; if !q { h.users = vec![ALICE, BOB, CAROL]; h.seeds.push("three_users"); } }), tier.pick(4, 6), secs),
+                bfs(ulc("c01-lifecycle", |h| { h.arm.c01 = true; h.with_bond = !q; h.with_convert = !q; h.with_slash_bonded = true; h.budget = tier.pick(1, 2); h.slash_vals = vec!["val1", "val2"]; h.seeds = vec!["funded", "slashed", "inflight", "two_inflight"]; if !q { h.users = vec![ALICE, BOB, CAROL]; h.seeds.push("three_users"); } }), tier.pick(4, 5), secs),
                 bfs(ulc("c01-long-history", |h| { h.arm.c01 = true; h.seeds = vec!["ten_batches", "zero_batch"]; h.sym = false; h.amounts_abs = vec![3]; h.budget = 1; h.slash_vals = vec!["val1"]; }), tier.pick(4, 6), secs),
                 bfs(ulc("c01-1e15", |h| { h.arm.c01 = true; h.arm.c06 = true; h.scale = 1_000_000_000_000_000; h.sym = false; h.amounts_abs = vec![100, 37]; h.seeds = vec!["two_inflight", "slashed"]; h.slash_vals = vec!["val1", "val2"]; h.budget = tier.pick(2, 3); h.with_rogue = true; }), tier.pick(4, 6), secs),
                 bfs(ulc("c01-pegfee", |h| { h.arm.c01 = true; h.peg_fee = "0.01"; h.seeds = vec!["slashed"]; h.budget = 1; }), tier.pick(5, 7), secs),
@@ -124,7 +124,7 @@ pub fn build(id: &str, tier: Tier) -> Option<Check> {
                 id: "C08",
                 jobs: periods
                     .into_iter()
-                    .map(|(e, u)| bfs(ulc(&format!("c08-E{}-U{}", e, u), |h| { h.arm.c08 = true; h.epoch = e; h.unbonding = u; h.full_time = true; h.sym = false; h.amounts_abs = vec![1, 100]; h.seeds = if e == 10 { vec!["funded", "slashed"] } else { vec!["funded"] }; h.budget = 0; }), tier.pick(6, 8), secs / 3.0))
+                    .map(|(e, u)| bfs(ulc(&format!("c08-E{}-U{}", e, u), |h| { h.arm.c08 = true; h.epoch = e; h.unbonding = u; h.full_time = true; h.sym = false; h.amounts_abs = vec![1, 100]; h.seeds = if e == 10 { vec!["funded", "slashed"] } else { vec!["funded"] }; h.budget = 0; }), tier.pick(6, if e == 10 { 7 } else { 8 }), secs / 3.0))
                     .collect(),
                 rule: "for each (epoch, unbonding) period configuration every sequence of <= D unbond(1|100)/withdraw actions of 2 users interleaved with the full time-region alphabet (+1 second and every critical instant c-1, c, c+1 of the epoch boundary and of every pending release); every transition compares the history before/after and checks the epoch and unbonding comparisons at the exact boundary seconds; non-trivial = batch close, release transition, in-epoch unbond or a paid withdraw".into(),
                 assumptions: envelope(),
@@ -134,7 +134,7 @@ pub fn build(id: &str, tier: Tier) -> Option<Check> {
         "C09" => Check {
             id: "C09",
             jobs: vec![
-                bfs(hub("c09-exits", |h| { h.arm.c09 = true; h.with_rewards = true; h.with_transfers = true; h.budget = tier.pick(1, 2); h.slash_fracs = vec![(1, 10), (1, 2)]; h.seeds = if q { vec!["funded", "slashed", "inflight"] } else { vec!["funded", "slashed", "slashed_unseen", "inflight", "rewarded", "three_vals"] }; }), tier.pick(3, 5), secs),
+                bfs(hub("c09-exits", |h| { h.arm.c09 = true; h.with_rewards = true; h.with_transfers = true; h.budget = tier.pick(1, 2); h.slash_fracs = vec![(1, 10), (1, 2)]; h.seeds = if q { vec!["funded", "slashed", "inflight"] } else { vec!["funded", "slashed", "slashed_unseen", "inflight", "rewarded", "three_vals"] }; }), tier.pick(3, 4), secs),
                 bfs(hub("c09-long-history", |h| { h.arm.c09 = true; h.seeds = vec!["ten_batches"]; h.budget = 0; h.with_convert = false; h.bond_amounts = vec![100]; }), tier.pick(2, 3), secs),
                 bfs(ulc("c09-matured-claims", |h| { h.arm.c09 = true; h.seeds = vec!["two_inflight", "ten_batches", "slashed", "zero_batch"]; h.sym = false; h.amounts_abs = vec![3]; h.budget = 1; h.slash_vals = vec!["val1", "val2"]; h.unbonding_slash = vec![(1, 2), (1, 100)]; h.with_rogue = false; }), tier.pick(4, 6), secs),
                 bfs(hub("c09-pegfee", |h| { h.arm.c09 = true; h.peg_fee = "0.01"; h.seeds = vec!["slashed"]; h.budget = 1; }), tier.pick(3, 4), secs),
@@ -170,7 +170,7 @@ pub fn build(id: &str, tier: Tier) -> Option<Check> {
         "C12" => Check {
             id: "C12",
             jobs: vec![Box::new(C12Enum { max_len: tier.pick(5, 7), max_val: tier.pick(5, 6) })],
-            rule: "every validator list of length 0..=L with delegations in 0..=V in every order (L=5,V=5 quick; L=7,V=6 thorough), every amount 0..=sum+6, plus the same box scaled by 1e6+3, 1e12+7 and ~1e18/(L*V) with +-1 perturbations of delegations and amounts, through the public calculate_delegations / calculate_undelegations; each call under a 2 s watchdog; non-trivial = accepted plan with amount > 0".into(),
+            rule: "every validator list of length 0..=L with delegations in 0..=V in every order (L=5,V=5 quick; L=7,V=6 thorough), every amount 0..=sum+6, plus the same box scaled by 1e6+3, 1e12+7 and ~1e18/(L*V) with +-1 perturbations of delegations and amounts, through the public calculate_delegations / calculate_undelegations; each call under a 30 s watchdog; non-trivial = accepted plan with amount > 0".into(),
             assumptions: vec!["the two planning functions are pure; totals stay below 2^127 (u128-safe range of the property)".into()],
             essential: vec!["c12_empty_list", "c12_lists_with_zero", "c12_unsorted_lists", "c12_undelegate_rejected", "c12_large_n_lists"],
         },
@@ -229,7 +229,7 @@ pub fn build(id: &str, tier: Tier) -> Option<Check> {
         "C13" => Check {
             id: "C13",
             jobs: vec![
-                bfs(hub("c13-main", |h| { h.arm.c13 = true; h.with_registry = true; h.with_rewards = true; h.with_convert = false; h.seeds = if q { vec!["funded", "three_vals", "one_val", "blocked_removal"] } else { vec!["funded", "three_vals", "one_val", "blocked_removal", "inflight", "slashed_unseen"] }; }), tier.pick(4, 6), secs),
+                bfs(hub("c13-main", |h| { h.arm.c13 = true; h.with_registry = true; h.with_rewards = true; h.with_convert = false; h.seeds = if q { vec!["funded", "three_vals", "one_val", "blocked_removal"] } else { vec!["funded", "three_vals", "one_val", "blocked_removal", "inflight", "slashed_unseen"] }; }), tier.pick(4, 5), secs),
             ],
             rule: "hub-core exploration with AddValidator/RemoveValidator for val1 and val3 enabled in every state (pending rewards, in-flight batches, blocked redelegation after a previous removal, re-addition); every RemoveValidator by the owner is checked against the staking ledger; non-trivial = a removal checked".into(),
             assumptions: envelope(),
